@@ -265,6 +265,55 @@ def unit_boundary(ndim, p):
                 config={'ndim': ndim, 'p': p}, bounded_in='ndim = %d' % ndim)
 
 
+def unit_discr_flag(ndim, exponent, weighted):
+    """DiscretizedSpace.is_uniformly_weighted (the cached flag that switches the boundary scaling of _inner / _norm / _dist off): True exactly when every boundary cell
+    fraction equals 1, or the exponent is inf, or the tensor space is unweighted - so the scaling is skipped only where it is the identity (fractions 1) or not defined.
+    Fractions symbolic (> 0); a node lies on the boundary exactly when its fraction is 1/2."""
+    from contracts.props.C14 import Light
+
+    def run(ctx):
+        I = ctx.I
+        cls = I.get_class(DS + 'DiscretizedSpace')
+
+        def path(st):
+            fracs = []
+            for a in range(ndim):
+                fl, fr_ = S(z3.Real('fl%d' % a)), S(z3.Real('fr%d' % a))
+                st.assume(s_and(fl > 0, fr_ > 0))
+                fracs.append((fl, fr_))
+            half = core._sc(0.5)
+            on_bdry = tuple((core.sc_eq(fl, half), core.sc_eq(fr_, half)) for fl, fr_ in fracs)
+            st.object_arrays = True
+            tspace = Light(['TensorSpace'], {'is_weighted': bool(weighted)})
+            part = Light(['RectPartition'], {'boundary_cell_fractions': tuple(fracs), 'is_uniform': True, 'nodes_on_bdry_byaxis': on_bdry,
+                                             'nodes_on_bdry': on_bdry if ndim > 1 else on_bdry[0], 'ndim': ndim})
+            space = ip.Obj(cls)
+            space.fields['_DiscretizedSpace__tspace'] = tspace
+            space.fields['_DiscretizedSpace__partition'] = part
+            st.cuts[DS + 'DiscretizedSpace.exponent'] = lambda I2, fr2, self: exponent
+            fr = ip.Frame(st)
+            try:
+                flag = I._getattr(space, 'is_uniformly_weighted', fr)
+                flag2 = I._getattr(space, 'is_uniformly_weighted', fr)
+            except ip.PyRaise as e:
+                return ('raise', e.exc)
+            return ('ok', (flag, flag2, fracs))
+        info = {'ndim': ndim, 'exponent': exponent, 'tspace_weighted': weighted}
+        for st, (status, r) in ctx.explore(path):
+            if status == 'raise':
+                ctx.fail(st, 'no_raise', 'raises %s' % lib.exc_desc(r), info)
+                continue
+            flag, flag2, fracs = r
+            all_one = s_and(*[core.sc_eq(f, core._sc(1.0)) for pair in fracs for f in pair])
+            want = s_or(all_one, exponent == float('inf'), not weighted)
+            fb = flag if isinstance(flag, bool) else core.sbool(flag) if hasattr(core, 'sbool') else flag
+            ctx.prove(st, 'flag == (all boundary fractions are 1) or exponent == inf or tensor space unweighted', core.sc_eq(fb, want) if not isinstance(fb, bool) else (want if fb else s_not(want)), info,
+                      replay={'kind': 'discr', 'method': '_norm'})
+            ctx.prove(st, 'the cached value is returned on the second access', flag2 is flag or (isinstance(flag, bool) and flag2 == flag), info)
+    return Unit('discr/is_uniformly_weighted/%dd/p=%s/%s' % (ndim, exponent, 'weighted' if weighted else 'unweighted'), run, funcs=[DS + 'DiscretizedSpace.is_uniformly_weighted'],
+                config={'ndim': ndim, 'exponent': exponent, 'tspace_weighted': weighted})
+
+
 def unit_discr_methods(meth, ndim):
     """DiscretizedSpace._inner/_norm/_dist on a uniform, non-uniformly weighted space: the operands handed to the
     tensor space are the boundary-scaled arrays (exponent 1 for inner, the space exponent for norm / dist)"""
@@ -367,7 +416,7 @@ def unit_pspace_weighting(kind, field, exponent, k=2):
             def path(st, meth=meth):
                 st.object_arrays = True
                 fr = ip.Frame(st)
-                dt = npm.DT('complex128' if field == 'complex' else 'float64')
+                dt = npm.DT('complex128' if field == 'complex' else ('int64' if field == 'int' else 'float64'))       # 'int': integer-dtype components - their norms are still real numbers
                 if kind == 'array':
                     ws = [S(z3.Real('w%d' % i)) for i in range(k)]
                     for w in ws:
@@ -405,7 +454,7 @@ def unit_pspace_weighting(kind, field, exponent, k=2):
                         if name == 'dtype':
                             return dt
                         if name == 'field':
-                            return om.field_obj(I_, field)
+                            return om.field_obj(I_, 'real' if field == 'int' else field)
                         raise Unsupported('component space .%s' % name)
 
                 class Comp(object):
@@ -526,11 +575,17 @@ def units(tier, seed):
             us.append(unit_boundary(ndim, p))
         for meth in ('_inner', '_norm', '_dist'):
             us.append(unit_discr_methods(meth, ndim))
+    for ndim in (1, 2):
+        for exponent, weighted in ((2.0, True), (1.0, True), (float('inf'), True), (2.0, False)):
+            us.append(unit_discr_flag(ndim, exponent, weighted))
     for kind in ('array', 'const'):
         for field in ('real', 'complex'):
             for p in (2.0, 1.0, float('inf')):
                 us.append(unit_pspace_weighting(kind, field, p))
     us.append(unit_pspace_weighting('array', 'complex', 2.0, k=3))
+    for kind in ('array', 'const'):
+        for p in (1.0, float('inf')):
+            us.append(unit_pspace_weighting(kind, 'int', p))
     us.append(unit_canary())
     return us
 
